@@ -33,7 +33,12 @@ func (scanner *BlockScanner) GetBlockByHeight(height uint32) (*blocks.Block, err
 		return nil, err
 	}
 
-	hexReader := hex.NewDecoder(strings.NewReader(blockHex.(string)))
+	blockHexString, ok := blockHex.(string)
+	if !ok {
+		return nil, rpc.ErrInvalidResponseFormat
+	}
+
+	hexReader := hex.NewDecoder(strings.NewReader(blockHexString))
 
 	block, err := blocks.FromReader(hexReader)
 	if err != nil {
